@@ -34,6 +34,9 @@ def main(prop: str, tier: str) -> int:
             add_part(rep, 'arithmetic', numexpr.run(rep, tier, {'reparse'}))
         except ImportError:
             pass
+    if prop == 'C05':
+        from checks import treecheck
+        add_part(rep, 'tree_tla_cross_check', treecheck.run(rep, tier))
     if prop in ('C05', 'C06'):
         from checks import compose
         add_part(rep, 'composed_histories', compose.run(rep, tier, prop))
